@@ -55,6 +55,26 @@ def finish(name, cases, expect, recs, rule, extra_check=None, families=None):
     return {"evaluations": len(cases), "distinct_nontrivial": len(seen), "failures": fails, "samples": samples, "rule": rule, "distribution": dict(dist)}
 
 
+def case_stratum(rng, cases, exp, fam, k):
+    """all patterns are compiled case-insensitively, so every expression also exists in upper and title case: for a random
+    sample of the cases add both spellings with the same expectation (family 'case: ...')"""
+    cand = [i for i, c in enumerate(cases) if isinstance(c[0], str) and c[0].upper() != c[0]]
+    # letters outside ASCII first (their case folding is the part that depends on how the patterns are compiled), one per text
+    seen, special = set(), []
+    for i in cand:
+        if not cases[i][0].isascii() and cases[i][0] not in seen:
+            seen.add(cases[i][0]); special.append(i)
+    idx = samp(rng, special, k // 2)
+    idx += samp(rng, [i for i in cand if i not in set(idx)], k - len(idx))
+    for i in idx:
+        t = cases[i][0]
+        for v in {t.upper(), t.title()} - {t}:
+            if v.lower() != t.lower():
+                continue            # a spelling whose case mapping changes its letters (e.g. sharp s) is another text
+            cases.append((v,) + tuple(cases[i][1:])); exp.append(exp[i]); fam.append("case: " + str(fam[i]))
+
+
+
 # ------------------------------------------------------------------ C03
 def c03_forms():
     out = []   # (family, text, kind, arg)
@@ -138,6 +158,7 @@ def sweep_c03(rng, tier):
     if tier == "thorough":
         for (family, text, kind, arg) in forms:
             cases.append((text, ts0, {})); exp.append(c03_expected(ts0, kind, arg)); fam.append(family)
+    case_stratum(rng, cases, exp, fam, 240 if tier == "thorough" else 60)
     recs = parse_many(cases)
     # an omitted reference time means the current time: freeze `datetime.now` of the module (no source hook) and ask without ts
     import sys as _sys
@@ -240,6 +261,7 @@ def sweep_c04(rng, tier):
             h_from = pod_hours[name][0]
             dd = d + timedelta(1) if (h_from, 0) <= (ts[3], ts[4]) else d
             cases.append((w, ts, {})); exp.append(T(dd.year, dd.month, dd.day, pod=name)); fam.append("pod")
+    case_stratum(rng, cases, exp, fam, 240 if tier == "thorough" else 60)
     recs = parse_many(cases)
     return finish("C04", cases, exp, recs, "weekday / day-of-month / day+month / part-of-day forms from the pattern languages x boundary reference dates; "
                   "expected = nearest matching date by brute-force day stepping; non-trivial = distinct (form, ts) that resolved", families=fam)
@@ -285,6 +307,7 @@ def sweep_c05(rng, tier):
             cases.append(("%02d.%02d.%d %02d:%02d" % (d, m, y, h, mi), ts, {})); exp.append(T(y, m, d, h, mi)); fam.append("+hh:mm")
             cases.append(("%02d.%02d.%d um %02d:%02d uhr" % (d, m, y, h, mi), ts, {})); exp.append(T(y, m, d, h, mi)); fam.append("+um hh:mm uhr")
             cases.append(("%02d:%02d %02d.%02d.%d" % (h, mi, d, m, y), ts, {})); exp.append(T(y, m, d, h, mi)); fam.append("hh:mm +")
+    case_stratum(rng, cases, exp, fam, 240 if tier == "thorough" else 60)
     recs = parse_many(cases)
     # overlapping parses (this process, deterministic): a stream over text A is suspended after its first candidate, a text B of
     # the same notation (same layout, other numbers) is parsed completely, then A is resumed - A's best candidate is still A's date
@@ -360,6 +383,7 @@ def sweep_c06(rng, tier):
                 cases.append((w % hw, ts0, off)); exp.append(T(h=hh, mi=mi)); fam.append("h + pod" if hw != "%d" % h else "bare h + pod")
     for w in G.L("ruleMidnight"):
         cases.append((w, ts0, off)); exp.append(T(h=0, mi=0)); fam.append("midnight")
+    case_stratum(rng, cases, exp, fam, 240 if tier == "thorough" else 60)
     recs = parse_many(cases)
     return finish("C06", cases, exp, recs, "24 hours x minutes x 18 clock notations (latent off), named hours from the pattern language, quarter/half, hour + part of day, "
                   "and latent anchoring at reference times on both sides of the minute incl. day/month/year roll-over", families=fam)
@@ -460,6 +484,7 @@ def sweep_c07(rng, tier):
                 cases.append((txt, ts0, {})); exp.append(date_pred(d1, d2)); fam.append("date pair")
             txt = "between %d.%d.%d and %d.%d.%d" % (d1.day, d1.month, d1.year, d2.day, d2.month, d2.year)
             cases.append((txt, ts0, {})); exp.append(date_pred(d1, d2)); fam.append("date pair")
+    case_stratum(rng, cases, exp, fam, 240 if tier == "thorough" else 60)
     recs = parse_many(cases)
     return finish("C07", cases, exp, recs, "all 24x24 hour pairs x minute variants x joiners of the pattern language x date forms (none, explicit incl. month ends, relative, weekday); "
                   "before/after words of the pattern language incl. negations; ordered and reversed date pairs incl. multi-year. Oracle: start = A, start < end <= start + 24 h, "
@@ -540,6 +565,7 @@ def sweep_c08(rng, tier):
             for nn in (n, 1 if n != 1 else 2, n % 30 if n % 30 not in (0, n) else n + 1, n + 30):
                 txt = form % ((nn, A, B) if form.startswith("%d") else (A, B, nn))
                 cases.append((txt, ts0, {})); exp.append(range_pred(a, b, n, nn == n, txt)); fam.append("N days + range" + ("" if nn == n else " (wrong N)"))
+    case_stratum(rng, cases, exp, fam, 240 if tier == "thorough" else 60)
     recs = parse_many(cases)
     return finish("C08", cases, exp, recs, "N in 0..120 x unit words of the pattern language (digits, glued and blank separated); correctly spelt number words one..thirtyone / ein..einunddreissig x unit words; "
                   "half forms; '<date[ time]> for N units' from month ends and leap days vs calendar arithmetic; 'N days <range>' with the right N", families=fam)
@@ -658,6 +684,7 @@ def sweep_c20(rng, tier):
             skipped["ambiguous-number+date-juxtaposition"] += 1
             continue
         cases.append((txt, ts, {})); exp.append(T(td["y"], td["m"], td["d"], tc["h"], tc["mi"])); fam.append(("clock first: " if form.startswith("rev") else form + ": ") + famname)
+    case_stratum(rng, cases, exp, fam, 240 if tier == "thorough" else 60)
     recs = parse_many(cases)
     r = finish("C20", cases, exp, recs, "every (day family x clock family x order/connector) at several reference times incl. the boundary 'named weekday = weekday of the reference day'; expected = date the day part alone "
                "resolves to at hour:minute the clock part alone denotes (latent off); combinations whose parts alone are not a pure date / pure clock are skipped (counted)", families=fam)
